@@ -9,7 +9,7 @@ import FV.Model.Geom
     * `Allocation.__init__`:         `if not epsilon_defined(): set_epsilon(1e-12 * min(bb.w, bb.h))`
   and read by every tolerance-dependent operation afterwards.  The model threads that state explicitly.
 -/
-namespace FV
+namespace FV.Proc
 
 structure Eps (α : Type) where
   dist : α
@@ -56,4 +56,4 @@ def allocProposal (k w h : α) : α := k * pyMin w h
     `dims` lists those numbers in the order Python visits them, starting from `inf`. -/
 def netlistProposal (k inf : α) (dims : List α) : α := dims.foldl pyMin inf * k
 
-end FV
+end FV.Proc
